@@ -854,6 +854,32 @@ type confCase struct {
 	want string
 }
 
+type confTimeoutErr struct{ t bool }
+
+func (e confTimeoutErr) Error() string { return "timeout-ish" }
+func (e confTimeoutErr) Timeout() bool { return e.t }
+
+func conf045() string { // errors.As: interface and concrete targets, wrapped, joined, absent
+	w := fmt.Errorf("outer: %w", &confErr{5})
+	j := errors.Join(confSentinel, fmt.Errorf("in: %w", confTimeoutErr{true}))
+	var ce *confErr
+	okC := errors.As(w, &ce)
+	code := 0
+	if okC {
+		code = ce.code
+	}
+	var to interface{ Timeout() bool }
+	okT := errors.As(j, &to)
+	tv := okT && to.Timeout()
+	var to2 interface{ Timeout() bool }
+	okN := errors.As(w, &to2)
+	var ce2 *confErr
+	okN2 := errors.As(confSentinel, &ce2)
+	var te confTimeoutErr
+	okV := errors.As(fmt.Errorf("a: %w", fmt.Errorf("b: %w", confTimeoutErr{false})), &te)
+	return confJoin(confB(okC), code, confB(okT), confB(tv), confB(okN), confB(okN2), confB(ce2 == nil), confB(okV), confB(te.t), confB(errors.As(nil, &ce2)))
+}
+
 var confCases = []confCase{
 	{"001-complit-assign", conf001, "1,1,1"},
 	{"002-struct-copy", conf002, "1,5"},
@@ -899,6 +925,7 @@ var confCases = []confCase{
 	{"042-buffers", conf042, "5,2,XYXY012zz"},
 	{"043-unsigned", conf043, "1,1,1,44,300,-56,255"},
 	{"044-bits", conf044, "2,7,3,1,3,8,4,31,111-ff"},
+	{"045-errors-as", conf045, "1,5,1,1,0,0,1,1,0,0"},
 }
 
 // One harness per case group keeps a failure local; every case is fully concrete, so each is a single path.
@@ -922,4 +949,4 @@ func verifHarnessConformanceA() { verifConfRun(0, 10) }
 func verifHarnessConformanceB() { verifConfRun(10, 20) }
 func verifHarnessConformanceC() { verifConfRun(20, 32) }
 func verifHarnessConformanceD() { verifConfRun(32, 38) }
-func verifHarnessConformanceE() { verifConfRun(38, 44) }
+func verifHarnessConformanceE() { verifConfRun(38, 46) }
